@@ -1489,6 +1489,15 @@ def fam_options(prop, tier):
     # -------- transpose_results(false) with a joiner that returns the already transposed Result (sync; fix b146182)
     for ds in [(1, 1), (2, 2), (1, 2), (2, 1), (2, 1, 2), (3, 2)]:
         out.append(_transpose_harness(prop, ds))
+    # ... and with a final handler: it gets the values of the already transposed result
+    for ds, h in [((1, 1), "map"), ((2, 2), "map"), ((1, 2), "and_then"), ((2, 1, 2), "map")]:
+        out.append(_transpose_harness(prop, ds, h))
+    # async try macro with transpose_results(true): the joiner (futures::join!) returns the tuple of Results, the macro transposes
+    b = "    let a: u8 = kani::any(); let c: u8 = kani::any(); let f: bool = kani::any();\n"
+    prog = "try_join_async! { custom_joiner(::futures::join!) transpose_results(true) gate(0, code(K_POLL, 0, 0, 0), Ok::<u8, u8>(a)), gate(0, code(K_POLL, 1, 0, 0), if f { Err::<u8, u8>(5) } else { Ok(c) }), map => |x: u8, y: u8| x ^ y.rotate_left(1) }"
+    b += "    let (out, _p) = run(%s, 2);\n    assert!(out.is_some());\n" % prog
+    b += "    let r: Result<u8, u8> = out.unwrap();\n    assert!(r == if f { Err(5) } else { Ok(a ^ c.rotate_left(1)) }, \"C16: transpose_results(true) in an async try macro with a map handler\");\n"
+    out.append(Harness("c16_opt_async_transpose_true_map", harness_fn("c16_opt_async_transpose_true_map", b, unwind=4), prog, note="async try, non-default transpose, map handler"))
     # -------- futures_crate_path + async custom joiner macro
     b = "    let a: u8 = kani::any(); let c: u8 = kani::any();\n"
     prog = "join_async! { futures_crate_path(crate::support::reexport::futures) gate(0, code(K_POLL, 0, 0, 0), a) ~|> |x: u8| x.wrapping_add(1), gate(0, code(K_POLL, 1, 0, 0), c) ~|> |x: u8| x.wrapping_add(2) }"
@@ -1536,7 +1545,8 @@ def _joiner_harness(prop, ds, lazy):
     return Harness(hn, harness_fn(hn, b, unwind=TMAX + 2), prog, note="logging joiner, profile %s" % (ds,))
 
 
-def _transpose_harness(prop, ds):
+def _transpose_harness(prop, ds, handler=None):
+    """handler: None / "map" / "and_then": the final handler is applied to the (already transposed) result of the last step"""
     n = len(ds)
     b = ""
     for i in range(n):
@@ -1551,8 +1561,13 @@ def _transpose_harness(prop, ds):
             else:
                 t += " ~|> |x: u8| { ev(code(K_CALL, %d, %d, 0)); x.wrapping_add(%d) }" % (i, s, K(i, s))
         brs.append(t)
+    comb = " ^ ".join("x%d.rotate_left(%d)" % (i, i) for i in range(n))
+    if handler == "map":
+        brs.append("map => |%s| %s" % (", ".join("x%d: u8" % i for i in range(n)), comb))
+    elif handler == "and_then":
+        brs.append("and_then => |%s| if (%s) == 7 { Err::<u8, u8>(9) } else { Ok(%s) }" % (", ".join("x%d: u8" % i for i in range(n)), comb, comb))
     prog = "try_join! { transpose_results(false) custom_joiner(crate::support::transposing_joiner!) %s }" % ", ".join(brs)
-    rty = "Result<%s, u8>" % tupty("u8", n)
+    rty = "Result<%s, u8>" % (tupty("u8", n) if handler is None else "u8")
     b += "    let r: %s = %s;\n" % (rty, prog)
     vals = []
     for i in range(n):
@@ -1565,9 +1580,16 @@ def _transpose_harness(prop, ds):
         first = "if f%d { %d } else { %s }" % (i, 100 + i, first)
     anyf = " || ".join("f%d" % i for i in range(n))
     gfail = "g" if ds[0] > 1 else "false"
-    b += "    let exp: %s = if %s { Err(%s) } else if %s { Err(150) } else { Ok(%s) };\n" % (rty, anyf, first, gfail, tup(vals))
+    okv = tup(vals)
+    if handler is not None:
+        cv = " ^ ".join("(%s).rotate_left(%d)" % (vals[i], i) for i in range(n))
+        okv = cv if handler == "map" else None
+    if handler == "and_then":
+        b += "    let exp: %s = if %s { Err(%s) } else if %s { Err(150) } else if (%s) == 7 { Err(9) } else { Ok(%s) };\n" % (rty, anyf, first, gfail, cv, cv)
+    else:
+        b += "    let exp: %s = if %s { Err(%s) } else if %s { Err(150) } else { Ok(%s) };\n" % (rty, anyf, first, gfail, okv)
     b += "    assert!(r == exp, \"C16: transpose_results(false): the joiner's output is the already transposed Result in every step\");\n"
-    hn = "%s_transpose_false_%s" % (prop.lower(), pname(ds))
+    hn = "%s_transpose_false_%s%s" % (prop.lower(), pname(ds), "" if handler is None else "_" + handler)
     return Harness(hn, harness_fn(hn, b, unwind=TMAX + 2), prog, note="transposing joiner, profile %s" % (ds,))
 
 
